@@ -25,11 +25,28 @@ SCENIC_EXPRS = ["new Object at (1, 2)", "new Object", "A relative to B", "x deg"
                 "front of ego", "a @ b", "follow f from p for 3", "not visible ego", "ego offset by (1, 2)", "angle to x",
                 "apparent heading of ego", "initial scenario", "x until y", "always x", "new Object facing 3 deg, with foo 4",
                 "(relative heading of x) from y", "p offset along d by v", "beyond a by b from c", "altitude from a to b"]
+# names the compiler tracks / rewrites, in every binding or deleting position Python has
+NAME_EXPRS = ["ego", "workspace", "globalParameters", "ego.x", "ego[0]", "(ego)", "*ego", "ego, workspace", "[ego, x]", "(workspace, *r)",
+              "str", "int", "float", "self", "simulation", "globalParameters.p", "ego.position.x", "x.ego", "ego()", "_Scenic_current_behavior"]
 TEMPLATES = ["({e}) = 1", "{e} = 1", "@{e}\ndef f():\n    pass", 'x = f"{{{e}}}"', 'x = f"{{{e}!r:>{{w}}}}"', "for {e} in y:\n    pass", "del {e}",
              "with a as {e}:\n    pass", "{e} += 1", "x = [{e} for {e} in z]", "f = lambda a={e}: a", "import {e}", "global {e}",
              "x: {e} = 3", "def f({e}):\n    pass", "class C({e}):\n    pass", "x = ({e} := 3)", "match x:\n    case {e}:\n        pass",
              "require {e}", "ego = {e}", "param p = {e}", "x = {e} if {e} else {e}", "try:\n    pass\nexcept {e}:\n    pass", "assert {e}, {e}",
-             "raise {e} from {e}", "x[{e}] = {e}", "async def f():\n    await {e}", "behavior B():\n    take {e}", "behavior B():\n    do {e} until {e}"]
+             "raise {e} from {e}", "x[{e}] = {e}", "async def f():\n    await {e}", "behavior B():\n    take {e}", "behavior B():\n    do {e} until {e}",
+             # binding / deleting / declaring forms (for the tracked names above and for Scenic expressions alike)
+             "import m as {e}", "from m import {e}", "from m import a as {e}", "def f():\n    nonlocal {e}", "def f():\n    global {e}\n    {e} = 1",
+             "def {e}():\n    pass", "class {e}:\n    pass", "try:\n    pass\nexcept E as {e}:\n    pass", "match x:\n    case [a, *{e}]:\n        pass",
+             "match x:\n    case {{'k': {e}}}:\n        pass", "match x:\n    case C(a={e}):\n        pass", "match x:\n    case 1 | 2 as {e}:\n        pass",
+             "f = lambda {e}: 0", "def f(a, {e}=1):\n    pass", "def f(*{e}):\n    pass", "def f(**{e}):\n    pass", "x = {{k: v for {e} in y}}",
+             "{e}: int = 3", "{e}: int", "({e}, x) = y", "[{e}, *r] = y", "{e}.a = 1", "{e}[0] = 1", "del {e}.a", "del {e}[0]", "del ({e}, x)", "del [{e}]",
+             "type {e} = int", "async def f():\n    async for {e} in y:\n        pass", "async def f():\n    async with a as {e}:\n        pass",
+             "x = {e}", "f({e}={e})", "print(*{e})", "f(**{e})", "{e} -= {e}", "x = y = {e}", "{e} = {e} = 1", "for x in y:\n    pass\nelse:\n    del {e}",
+             "with ({e} as a, b as {e}):\n    pass", "x = [a for a in b if ({e} := a)]", "while ({e} := f()):\n    pass", "return {e}", "yield {e}",
+             "require always {e}", "terminate when {e}", "record {e} as {e}", "mutate {e}", "override {e} with x 1", "param {e} = 1", "model {e}"]
+# contexts a template may be placed in (the compiler treats names differently inside each)
+CONTEXTS = ["{t}", "{t}", "behavior B_():\n{T}\n    wait", "monitor M_():\n{T}\n    wait", "scenario S_():\n    setup:\n{TT}\n        ego = new Object",
+            "scenario S_():\n    compose:\n{TT}\n        wait", "def f_():\n{T}", "class C_:\n{T}", "behavior B_():\n    try:\n{TT}\n        wait\n    interrupt when x:\n{TT}\n        wait",
+            "behavior B_():\n    precondition: {e1}\n    wait", "if x:\n{T}"]
 TAILS = ["(", "[", "{", '"""', "'''", "x = ", "\\", "if x:", "    ", "\t x", "new Object at", "def f(", 'f"{', 'f"{x!', "x = (1,\n", "class C:",
          "behavior B():", "require", "try:\n    pass\ninterrupt when", "\x00", "@", "lambda", "x = 1 if", "for x in", "    pass", ")"]
 
@@ -82,24 +99,62 @@ def mutate(src, rng):
     if k == "truncate" and src:
         return k, src[:rng.randrange(len(src))]
     if k == "template":
-        e = rng.choice(SCENIC_EXPRS)
-        t = rng.choice(TEMPLATES).replace("{e}", e).replace("{{", "{").replace("}}", "}")
+        pool = NAME_EXPRS if rng.random() < 0.4 else SCENIC_EXPRS
+        t = rng.choice(TEMPLATES)
+        while "{e}" in t:
+            t = t.replace("{e}", rng.choice(pool), 1)
+        t = t.replace("{{", "{").replace("}}", "}")
+        ctx = rng.choice(CONTEXTS)
+
+        def ind(txt, n):
+            return "\n".join(" " * n + l for l in txt.split("\n"))
+        t = ctx.replace("{t}", t).replace("{TT}", ind(t, 8)).replace("{T}", ind(t, 4)).replace("{e1}", t.split("\n")[0])
         i = rng.randrange(len(lines) + 1)
-        ind = ""
+        ind0 = ""
         if i < len(lines) and rng.random() < 0.5:
-            ind = lines[i][:len(lines[i]) - len(lines[i].lstrip())]
-        return k, "\n".join(lines[:i] + [ind + l for l in t.split("\n")] + lines[i:])
+            ind0 = lines[i][:len(lines[i]) - len(lines[i].lstrip())]
+        return k, "\n".join(lines[:i] + [ind0 + l for l in t.split("\n")] + lines[i:])
     if k == "tail":
         return k, src.rstrip("\n") + rng.choice(["\n", "\n\n", " ", ""]) + rng.choice(TAILS) + rng.choice(["", "\n", "\n\n"])
     return "identity", src
 
 
-class Timeout(Exception):
-    pass
+class Timeout(BaseException):
+    """Raised by the hang detector (BaseException: no `except Exception` of the code under test can swallow it)."""
+
+
+class StopBeforeExec(BaseException):
+    """Raised instead of executing the translated code: the whole real pipeline runs, nothing of the program does."""
+
+
+BUDGET = 25                      # CPU seconds per input and route
+_G = dict(armed=False, t0=0.0, budget=BUDGET)
 
 
 def _alarm(signum, frame):
-    raise Timeout()
+    # An alarm counts only while an input is armed AND that input really used its CPU budget: a signal of the previous
+    # input delivered late, or one that fires inside the harness's own bookkeeping, is ignored.
+    if _G["armed"] and time.process_time() - _G["t0"] >= 0.9 * _G["budget"]:
+        _G["armed"] = False
+        raise Timeout()
+
+
+def _arm(budget):
+    _G.update(armed=True, t0=time.process_time(), budget=budget)
+    signal.setitimer(signal.ITIMER_VIRTUAL, budget)
+
+
+def _disarm():
+    _G["armed"] = False
+    signal.setitimer(signal.ITIMER_VIRTUAL, 0)
+
+
+def _chain(e):
+    seen = []
+    while e is not None and e not in seen and len(seen) < 20:
+        seen.append(e)
+        e = e.__cause__ or e.__context__
+    return seen
 
 
 def classify(e, nlines):
@@ -109,20 +164,22 @@ def classify(e, nlines):
     fr = [f for f in tb if "/scenic/" in f.filename]
     info = dict(type=type(e).__name__, msg=str(e)[:160], func=fr[-1].name if fr else None,
                 file=os.path.basename(fr[-1].filename) if fr else None)
-    if isinstance(e, ScenicSyntaxError) or isinstance(e, SyntaxError):
+    if any(isinstance(x, Timeout) for x in _chain(e)[1:]):
+        info["timeout_in_chain"] = True          # the alarm struck and some handler turned it into another exception
+    if isinstance(e, Timeout):
+        info["outcome"] = "timeout"
+    elif isinstance(e, ScenicSyntaxError) or isinstance(e, SyntaxError):
         ln = getattr(e, "lineno", None)
         info["lineno"] = ln
         info["scenic"] = isinstance(e, ScenicSyntaxError)
         if ln is None:
             info["outcome"] = "syntax-error-without-line"
-        elif not (1 <= ln <= nlines + 1):
+        elif not (isinstance(ln, int) and 1 <= ln <= nlines + 1):
             info["outcome"] = "syntax-error-line-out-of-range"
         else:
             info["outcome"] = "syntax-error"
     elif isinstance(e, tokenize.TokenError):
         info["outcome"] = "token-error"
-    elif isinstance(e, Timeout):
-        info["outcome"] = "timeout"
     elif isinstance(e, RecursionError):
         info["outcome"] = "recursion-error"
     else:
@@ -157,53 +214,167 @@ def veneer_reset():
     v.simulatorFactory = None
 
 
-def front_end(text, full):
-    """parse + compile to a Python AST (nothing is executed).  full: also through scenarioFromString when that failed."""
+_TMP = []
+_REAL_EXEC = []
+
+
+def _tmpdir():
+    if not _TMP:
+        _TMP.append(tempfile.mkdtemp(prefix="verif-c10f-"))
+    return _TMP[0]
+
+
+def install_stop():
+    """Replace translator.executeCodeIn: the translated code of the input is never run (only the one-line importer
+    module the harness itself writes for the `import` route is)."""
+    import scenic.syntax.translator as tr
+    if _REAL_EXEC:
+        return
+    _REAL_EXEC.append(tr.executeCodeIn)
+
+    def executeCodeIn(code, namespace):
+        if os.path.basename(getattr(code, "co_filename", "")).startswith("c10top_"):
+            return _REAL_EXEC[0](code, namespace)
+        raise StopBeforeExec()
+    tr.executeCodeIn = executeCodeIn
+
+
+def run_route(route, data, uid):
+    """Run one input through one entry point of the front end.  data: str (routes ast/string) or bytes (file/import).
+    ast    : parse_string -> compileScenicAST -> astToSource -> Python compile() of the translated module
+    string : scenic.scenarioFromString            file : scenic.scenarioFromFile on a real file
+    import : scenic.scenarioFromFile of a module that imports the input as a .scenic module
+    Nothing of the input is executed (StopBeforeExec counts as accepted)."""
+    import scenic
+    import scenic.syntax.translator as tr
     from scenic.syntax.compiler import compileScenicAST
     from scenic.syntax.parser import parse_string
+    text = data if isinstance(data, str) else data.decode("utf-8", "replace")
     nlines = len(text.split("\n"))
-    signal.setitimer(signal.ITIMER_VIRTUAL, 25)          # CPU seconds: a hang detector that does not depend on the load
+    cleanup = []
+    if route == "ast":
+        def run():
+            tree = parse_string(data, "exec", filename="<mutant>")
+            out, _ = compileScenicAST(tree, filename="<mutant>")
+            getattr(tr, "astToSource", lambda t: None)(out)
+            fn = getattr(tr, "compileTranslatedTree", None)
+            fn(out, "<mutant>") if fn else compile(out, "<mutant>", "exec")
+    elif route == "string":
+        def run():
+            scenic.scenarioFromString(data)
+    else:
+        d = _tmpdir()
+        raw = data if isinstance(data, bytes) else data.encode("utf-8")
+        if route == "file":
+            path = os.path.join(d, f"c10m_{uid}.scenic")
+            with open(path, "wb") as f:
+                f.write(raw)
+            cleanup.append(path)
+        else:
+            sub = os.path.join(d, f"c10sub_{uid}.scenic")
+            path = os.path.join(d, f"c10top_{uid}.scenic")
+            with open(sub, "wb") as f:
+                f.write(raw)
+            with open(path, "w") as f:
+                f.write(f"import c10sub_{uid}\n")
+            cleanup += [sub, path]
+            import importlib
+            importlib.invalidate_caches()
+
+        def run():
+            scenic.scenarioFromFile(path)
+    before = veneer_snapshot() if route != "ast" else None
+    t0 = time.process_time()
     try:
-        tree = parse_string(text, "exec", filename="<mutant>")
-        compileScenicAST(tree, filename="<mutant>")
-        res = dict(outcome="ok")
-    except BaseException as e:
-        if isinstance(e, (KeyboardInterrupt, SystemExit)):
-            raise
-        res = classify(e, nlines)
-    finally:
-        signal.setitimer(signal.ITIMER_VIRTUAL, 0)
-    if full and res["outcome"] not in ("ok", "timeout"):
-        import scenic
-        before = veneer_snapshot()
-        signal.setitimer(signal.ITIMER_VIRTUAL, 40)
+        _arm(BUDGET)
         try:
-            scenic.scenarioFromString(text)
-            res["full"] = "ok"
+            run()
+            res = dict(outcome="ok")
+        except StopBeforeExec:
+            _disarm()
+            res = dict(outcome="ok")
         except BaseException as e:
+            _disarm()
             if isinstance(e, (KeyboardInterrupt, SystemExit)):
                 raise
-            res["full"] = classify(e, nlines)["outcome"] + ":" + type(e).__name__
+            res = classify(e, nlines)
         finally:
-            signal.setitimer(signal.ITIMER_VIRTUAL, 0)
+            _disarm()
+    except Timeout:                         # struck between the end of run() and _disarm()
+        res = dict(outcome="timeout", type="Timeout", late=True)
+    res["cpu_s"] = round(time.process_time() - t0, 2)
+    res["route"] = route
+    res["nlines"] = nlines
+    if before is not None:
         after = veneer_snapshot()
         res["veneer_restored"] = before == after
         if before != after:
             res["veneer"] = dict(before=before, after=after)
             veneer_reset()
+    for p in cleanup:
+        try:
+            os.unlink(p)
+        except OSError:
+            pass
+    for m in [m for m in sys.modules if m.startswith("c10sub_")]:
+        del sys.modules[m]
     return res
+
+
+GOOD = ("ok", "syntax-error")
+
+
+def front_end(text, routes, uid, raw=None):
+    """All requested routes; the reported result is the first one that is neither accepted nor a located syntax error."""
+    results = []
+    for route in routes:
+        data = raw if (raw is not None and route in ("file", "import")) else text
+        if raw is not None and route in ("ast", "string"):
+            continue
+        results.append(run_route(route, data, uid))
+    bad = [r for r in results if r["outcome"] not in GOOD or r.get("veneer_restored") is False]
+    res = dict(bad[0] if bad else results[0])
+    res["routes"] = [r["route"] + ":" + r["outcome"] for r in results]
+    if any(r.get("veneer_restored") is False for r in results):
+        res["veneer_restored"] = False
+        res["veneer"] = next(r["veneer"] for r in results if r.get("veneer_restored") is False)
+    elif any("veneer_restored" in r for r in results):
+        res["veneer_restored"] = True
+    return res
+
+
+def plan_routes(kind, text, job, rng):
+    """Which entry points an input goes through.  Every input: `ast` (incl. Python's compile()).  All truncation/tail mutants,
+    every input whose error is reported on the last line or beyond, and a share of the rest also go through a REAL FILE
+    (scenarioFromFile) with the trailing newline kept / removed / doubled; smaller shares through scenarioFromString and through
+    the import of the input as a Scenic module."""
+    routes = ["ast"]
+    x = rng.random()
+    if "truncate" in kind or "tail" in kind or x < 0.12:
+        routes.append("file")
+    elif x < 0.22:
+        routes.append("string")
+    elif x < 0.27:
+        routes.append("import")
+    return routes
 
 
 def fuzz(req):
     signal.signal(signal.SIGVTALRM, _alarm)
+    install_stop()
     out = []
     budget = req.get("cpu_budget")
     for job in req["jobs"]:
         if budget and time.process_time() > budget:
             out.append(dict(id=job["id"], outcome="skip-time-budget"))
             continue
+        raw = None
         if "text" in job:
             kind, text = job.get("mutation", "given"), job["text"]
+            routes = job.get("routes") or ["ast", "string", "file", "import"]
+            if job.get("raw_hex"):
+                raw = bytes.fromhex(job["raw_hex"])
+                text = raw.decode("utf-8", "replace")
         else:
             src = open(job["path"], encoding="utf-8").read()
             rng = random.Random(job["seed"])
@@ -211,15 +382,44 @@ def fuzz(req):
             for _ in range(job.get("extra", 0)):
                 k2, text = mutate(text, rng)
                 kind += "+" + k2
+            routes = plan_routes(kind, text, job, rng)
+            if "file" in routes or "import" in routes:
+                v = rng.choice(["as-is", "as-is", "strip-newline", "add-newline", "crlf", "bad-utf8"])
+                if v == "strip-newline":
+                    text = text.rstrip("\n")
+                elif v == "add-newline":
+                    text = text + "\n"
+                elif v == "crlf":
+                    text = text.replace("\n", "\r\n")
+                kind += "@" + v
         try:
-            text.encode("utf-8")
+            enc = text.encode("utf-8")
         except UnicodeEncodeError:
             out.append(dict(id=job["id"], outcome="skip-unencodable"))
             continue
-        r = front_end(text, job.get("full", False))
-        r.update(id=job["id"], mutation=kind, nlines=len(text.split("\n")), sha=hashlib.sha256(text.encode()).hexdigest()[:12])
-        if r["outcome"] not in ("ok", "syntax-error"):
+        if "text" not in job and kind.endswith("@bad-utf8"):
+            i = rng.randrange(len(enc) + 1)
+            raw = enc[:i] + rng.choice([b"\xff", b"\xc3", b"\xe9x", b"\xf0\x9f"]) + enc[i:]
+            try:
+                raw.decode("utf-8")
+                raw = None
+            except UnicodeDecodeError:
+                routes = [r for r in routes if r in ("file", "import")]
+                text = raw.decode("utf-8", "replace")
+        r = front_end(text, routes, job["id"], raw=raw)
+        if r["outcome"] == "syntax-error" and r["route"] in ("ast", "string") and "file" not in routes and raw is None \
+                and isinstance(r.get("lineno"), int) and r["lineno"] >= r["nlines"] - 1:
+            # error reported on the last line or past the end of the input: also as a real file (the error text is read back from it)
+            r2 = run_route("file", text, job["id"])
+            r["routes"].append("file:" + r2["outcome"])
+            if r2["outcome"] not in GOOD or r2.get("veneer_restored") is False:
+                r2["routes"] = r["routes"]
+                r = r2
+        r.update(id=job["id"], mutation=kind, sha=hashlib.sha256(raw if raw is not None else enc).hexdigest()[:12])
+        if r["outcome"] not in GOOD or r.get("veneer_restored") is False:
             r["text"] = text
+            if raw is not None:
+                r["raw_hex"] = raw.hex()
         out.append(r)
     return out
 
@@ -339,7 +539,7 @@ def docs(req):
     signal.signal(signal.SIGVTALRM, _alarm)
     out = []
     for s_ in doc_samples(os.environ.get("VERIF_REPO", "/repo")):
-        r = front_end(s_["text"], False)
+        r = front_end(s_["text"], ["ast"], "doc")
         out.append(dict(file=s_["file"], line=s_["line"], sha=hashlib.sha256(s_["text"].encode()).hexdigest()[:12],
                         outcome=r["outcome"], msg=r.get("msg"), text=s_["text"]))
     return out
